@@ -238,10 +238,12 @@ REASON_TO_FINDING = {"inline-comment": "C18-trailing-comment-split",
                      "directive-compound-eq": "C18-directive-compound-operator-split"}
 
 
-def classify_failure(L, lines, clause, active_ids):
+def classify_failure(L, lines, clause, active_ids, breakable=None):
     """The known-finding ids whose classifier accepts this failing input."""
     if clause == "never-fails":
-        return {"C18-unbreakable-raises"} & active_ids
+        if breakable is None:
+            breakable = driver("C18", [f"(breakable {L} " + " ".join(enc(l) for l in lines) + ")"])[0] == "1"
+        return set() if breakable else {"C18-unbreakable-raises"} & active_ids
     if clause in ("same-program", "same-program-fparser"):
         return {REASON_TO_FINDING[r] for _, r in spec.unsafe_reasons(L, lines)} & active_ids
     return set()
@@ -280,13 +282,14 @@ def run(chk):
         req.append(f"(proc {L} " + " ".join(enc(l) for l in lines) + ")")
         req.append("(logical " + " ".join(enc(l) for l in lines) + ")")
         req.append(f"(safe {L} " + " ".join(enc(l) for l in lines) + ")")
+        req.append(f"(breakable {L} " + " ".join(enc(l) for l in lines) + ")")
     model = driver("C18", req)
-    dist = {"ok": 0, "err": 0, "long": 0, "retry_lstrip": 0, "types": {}, "fail_classes": {}, "fparser_checked": 0}
+    dist = {"ok": 0, "err": 0, "long": 0, "retry_lstrip_approx": 0, "types": {}, "fail_classes": {}, "fparser_checked": 0}
     out_req, out_idx = [], []
     want_fp = chk.tier == "thorough"
     reported = 0
     for idx, (L, lines) in enumerate(cases):
-        mo, mlog, msafe = model[3 * idx], model[3 * idx + 1], model[3 * idx + 2]
+        mo, mlog, msafe, mbrk = model[4 * idx:4 * idx + 4]
         res, fails = evaluate(L, lines, want_fparser=want_fp and idx % 4 == 0)
         if want_fp and idx % 4 == 0:
             dist["fparser_checked"] += 1
@@ -300,11 +303,21 @@ def run(chk):
         nontriv = any(len(l) > L for l in lines)
         if nontriv:
             dist["long"] += 1
+            from psyclone.line_length import FortLineLength
+            fl = FortLineLength(L)
+            for l in lines:
+                if len(l) > L:
+                    t = fl._get_line_type(l)
+                    dist["types"][t] = dist["types"].get(t, 0) + 1
+                    if res[0] == "ok" and l[:1].isspace() and l not in res[1] and not any(
+                            o.startswith(l[:len(l) - len(l.lstrip())]) and o.strip() for o in res[1].split("\n")):
+                        dist["retry_lstrip_approx"] += 1
         if spec.show_items(spec.logical(lines)) != mlog:
             raise common.Infra(f"c18_spec.logical differs from Lean C18.logical on {lines!r}: {mlog}")
         if (msafe == "1") != (not spec.unsafe_reasons(L, lines)):
             raise common.Infra(f"c18_spec.unsafe_reasons differs from Lean C18.SafeFile on {L} {lines!r}: {msafe}")
         dist["safe_file"] = dist.get("safe_file", 0) + (msafe == "1")
+        dist["breakable"] = dist.get("breakable", 0) + (mbrk == "1")
         if res[0] == "ok":
             out_req.append("(logical " + " ".join(enc(l) for l in res[1].split("\n")) + ")")
             out_idx.append(idx)
@@ -312,7 +325,7 @@ def run(chk):
         if not agreed:
             chk.correspondence_broken("FortLineLength.process differs from C18.process", {"limit": L, "lines": lines}, mo, impl)
         for clause, detail in fails:
-            ids = classify_failure(L, lines, clause, active) if agreed else set()
+            ids = classify_failure(L, lines, clause, active, mbrk == "1") if agreed else set()
             if ids:
                 for i in ids:
                     dist["fail_classes"][i] = dist["fail_classes"].get(i, 0) + 1
@@ -352,4 +365,8 @@ def replay(payload):
         print("FAILED clause", c, ":", d)
     if not fails:
         print("property holds on this input")
-    return 1 if fails else 0
+    want = payload.get("clause")
+    hit = [c for c, _ in fails if want is None or c == want or (want.startswith("same-program") and c.startswith("same-program"))]
+    if fails and not hit:
+        print(f"(the recorded clause `{want}` holds; the failures above belong to other clauses, see known findings)")
+    return 1 if hit else 0
